@@ -10,6 +10,11 @@ CHECKS = {
    text='Bounded exhaustive exploration: every deck of the stated alphabet (expression trees up to k leaves over plane, macrobody and facet literals, #( ) and #n complements, importances) is converted with the real entry point and compared with an independent reference at one witness point in every cell of the joint plane arrangement, which decides the per-deck claim for all points off the surfaces.',
    note='Trusted: MCNP/T4 semantics tables (DESIGN 5), PEG shim replacing TatSu, numpy. Decks restricted to the finite alphabet; points closer than 1e-6 to a surface not examined.',
    tech='explicit choice-tree enumeration (deviation-bounded, iterated) of decks against a reference model; complete plane-arrangement witnesses per deck'),
+
+ 'C11': dict(cat='model_checking', ref='4/C11',
+   text='Bounded exhaustive exploration of the expression language at the parser/complement-elimination seam: every tree up to the stated size, in every spelling within the deviation bound, is parsed with the real get_ast and pot_complement and compared with the generating tree under all 2^n sense assignments; the same spelled expressions are also sent through the whole converter and compared at arrangement witnesses.',
+   note='Trusted: PEG shim in place of the TatSu runtime (grammar file and semantic actions are the repository\'s), MCNP expression rules. Random generation beyond the bound is replaced by a larger exhaustive bound in the thorough tier.',
+   tech='explicit choice-tree enumeration of expressions x spellings; truth-table comparison over all sense assignments'),
 }
 NA_REASON = 'check not built yet in this build round (planned, see DESIGN.md section 4); no claim is made'
 
